@@ -18,7 +18,7 @@ func init() {
 			"(R15.2) snapshot and restore agree field by field (exhaustive over the fields of the snapshot type Data via go/types): storeObject fills every field from the live object with the snapshot key removed first, restoreObject writes every field back before its Update; " +
 			"(R15.3) compareAndUpdateObject writes only under an inequality of spec, annotations or labels and carries the snapshot annotation over; (R15.4) no error of the provider's API calls is lost (a swallowed conflict would be read as 'finalised'); " +
 			"(R15.5) executeLuaForCanary passes canaryWeight = w and stableWeight = 100 - w; the built-in VirtualService script selects routes by equality of the short host name with the stable Service and gives the canary destination canaryWeight (Lua AST).",
-		NotDecided: "exact restoration through JSON <-> Lua round trips; the arithmetic of the Istio scripts for routes with several destinations; user-supplied scripts.",
+		NotDecided:  "exact restoration through JSON <-> Lua round trips; the arithmetic of the Istio scripts for routes with several destinations; user-supplied scripts.",
 		Assumptions: []string{"Lua scripts are analysed syntactically (no Lua data flow)"},
 	})
 }
@@ -87,7 +87,9 @@ func runC15(c *Ctx) {
 		// the snapshot is taken before the first script run when absent
 		for _, call := range CallsIn(fn, "customController.storeObject") {
 			fs := FactsAtInstr(call.(ssa.Instruction))
-			ok := HasFact(fs, FFalse(func(t *Term) bool { return t.Op == "extract" && t.Idx == 1 && t.Args[0].Op == "lookup" && isSnapshotLookup(t.Args[0]) }))
+			ok := HasFact(fs, FFalse(func(t *Term) bool {
+				return t.Op == "extract" && t.Idx == 1 && t.Args[0].Op == "lookup" && isSnapshotLookup(t.Args[0])
+			}))
 			c.Ob("R15.1", "customController.EnsureRoutes#snapshot-once", call.Pos(), ok, "the snapshot is taken only when none exists yet", ifs(!ok, "storeObject not under 'annotation absent': a later step would snapshot an already modified object")).WithFacts(fs)
 		}
 	}
